@@ -50,6 +50,7 @@ type StateChecker interface {
 }
 
 type Config struct {
+	BuildName   string // name handed to Spec.Build in the workers (default: Name)
 	Name        string
 	MaxDepth    int
 	MaxDev      int // -1: deviations unbounded
@@ -60,6 +61,10 @@ type Config struct {
 	// ExpandViolating: by default a state reached by a violating transition is not expanded
 	// (its futures would re-report the same root cause under ever longer histories).
 	ExpandViolating bool
+	// NoDedup disables canonical-state de-duplication (every history is expanded): an audit of
+	// the canonical form. Equal canon is claimed to imply equal futures; a canon that forgets a
+	// piece of private state silently hides bugs, a search without it does not.
+	NoDedup bool
 }
 
 type Result struct {
@@ -292,7 +297,11 @@ func Run(cfg Config, rep *report.Reporter) Result {
 	res := Result{Config: cfg.Name}
 	workers := make([]*worker, 0, cfg.Workers)
 	for i := 0; i < cfg.Workers; i++ {
-		w, err := startWorker(cfg.Name)
+		bn := cfg.BuildName
+		if bn == "" {
+			bn = cfg.Name
+		}
+		w, err := startWorker(bn)
 		if err != nil {
 			report.Fatal("cannot start worker: %v", err)
 		}
@@ -397,7 +406,7 @@ func Run(cfg Config, rep *report.Reporter) Result {
 				if s.Dev {
 					nd++
 				}
-				if old, ok := visited[s.C]; ok && old <= nd {
+				if old, ok := visited[s.C]; ok && old <= nd && !cfg.NoDedup {
 					continue
 				}
 				if _, ok := visited[s.C]; !ok {
